@@ -310,7 +310,13 @@ def chk_lit_full_pool(sa, sb, sc, sd):
                    "not isinstance(d, int) or -2 <= d <= 3", "not isinstance(e, int) or -2 <= e <= 3"],
               timeout=tmo, family="behavioural equivalence: loaders of equivalent spellings on a symbolic datum",
               bounds="datum: atom None|bool|int in [-2,3]|str in ('', '1', 'a', 'k'), bare or in list/dict/tuple wrappers (7 shapes), strict and lax")
-    return Plan("C15", [m, mf, mb],
+    # bare generics in the position of a model / base class: the hierarchy cases of C16 that leave a generic unsubscripted
+    from props.C16 import build as build_c16
+    extra = []
+    for m16 in build_c16(tier, seed).modules:
+        m16.obs = [o for o in m16.obs if o.name == "creation" or "bare" in o.name.lower()]
+        extra.append(m16)
+    return Plan("C15", [m, mf, mb] + extra,
                 assumptions=["groups of equivalent spellings are equivalent by construction (typing semantics)"],
                 bounds={"literal pool": str(k), "rewrite family": "51 groups"},
                 outside=["type terms outside the family grammar"])
